@@ -56,6 +56,9 @@ REPLY_LINE_VARIANTS = {
     "wrongkind_number": b"12345\r\n",
     "empty": b"\r\n",
     "long_server_error": b"SERVER_ERROR " + b"out of memory storing object " * 6 + b"\r\n",
+    # a complete, well-formed fetch reply - for a key nobody asked for (a proxy mixing up requests); for commands other
+    # than fetches it degrades to the single line above (a reply longer than any reply of that command is outside C01)
+    "foreign_item": b"VALUE zzz 0 1\r\nx\r\nEND\r\n",
 }
 
 
@@ -473,6 +476,8 @@ class FakeSocket:
             # replace the reply of the i-th replying command of this sendall by one line
             _, i, variant = k
             if i < len(segs):
+                if variant == "foreign_item" and getattr(replies[i][2], "verb", b"") not in (b"get", b"gets", b"gat", b"gats"):
+                    variant = "wrongkind_value"
                 segs[i][0] = bytearray(REPLY_LINE_VARIANTS[variant])
                 # a server that answered nonsense says nothing more for this command: a client that
                 # keeps waiting for the rest of a reply runs into its I/O timeout (planned stall)
